@@ -43,6 +43,8 @@ def main(p):
     places = a.get('places') or {}
     for full, text in comments.items():
         kind = kinds[full]
+        if kind == 'dep-message':
+            continue        # not emitted as a class; judged where a method docstring quotes it
         words = text.split()
         doc = None
         try:
